@@ -175,7 +175,7 @@ class CaseW:
 
 
 class Op:
-    __slots__ = ("id", "op", "args", "ret", "extra", "b", "raw", "afp_ok", "idx")
+    __slots__ = ("id", "op", "args", "ret", "extra", "b", "raw", "afp_ok", "idx", "blocked")
 
     def __init__(self, cid, op, args, raw):
         self.id = cid
@@ -187,6 +187,7 @@ class Op:
         self.raw = raw
         self.afp_ok = None
         self.idx = 0
+        self.blocked = None  # name of the failed producer this call depended on, if any
 
     # result helpers
     def ok(self):
@@ -223,7 +224,8 @@ class SessionLog:
         self.sid = sid
         self.ids = ids
         self.header = header
-        self.ops = []
+        self.ops = []  # operations the monitors judge
+        self.all_ops = []  # including calls that could not run because an earlier call they depend on failed
         self.ended = False
         self.problems = []  # harness-level problems (afp mismatch, caseerr, ...)
 
@@ -232,7 +234,7 @@ class SessionLog:
 
     def case_text(self, upto=None):
         lines = [self.header]
-        for o in self.ops:
+        for o in self.all_ops or self.ops:
             lines.append(o.raw)
             if upto is not None and o.id == upto:
                 break
@@ -321,6 +323,8 @@ def parse_events(path):
     problems = []
     cur = None
     regs = {}
+    failed_producers = set()
+    live_ctx = set()
     pending = None
     with open(path, "r") as fh:
         for line in fh:
@@ -334,19 +338,30 @@ def parse_events(path):
                 cur = SessionLog(f[1], (int(kv["kem"], 16), int(kv["kdf"], 16), int(kv["aead"], 16)), line)
                 sessions.append(cur)
                 regs = {}
+                failed_producers = set()
+                live_ctx = set()
                 pending = None
             elif tag == "C":
                 f = line.split()
                 op = Op(f[1], f[2], _kv(f[3:]), line)
-                op.idx = len(cur.ops)
-                cur.ops.append(op)
+                cur.all_ops.append(op)
                 for k, v in op.args.items():
                     if k in BYTE_ARGS:
                         try:
                             op.b[k] = decode_bytes(v, regs)
                         except Exception as e:  # unresolved in the checker
                             op.b[k] = None
-                            cur.problems.append("%s: cannot resolve %s=%s (%r)" % (op.id, k, v[:40], e))
+                            prod = v[1:].split("^")[0].split(".")[0] if v.startswith("$") else None
+                            if prod is not None and prod in failed_producers:
+                                op.blocked = prod
+                            else:
+                                cur.problems.append("%s: cannot resolve %s=%s (%r)" % (op.id, k, v[:40], e))
+                ctxname = op.args.get("ctx")
+                if op.blocked is None and ctxname is not None and ctxname in failed_producers and ctxname not in live_ctx:
+                    op.blocked = ctxname
+                if op.blocked is None:
+                    op.idx = len(cur.ops)
+                    cur.ops.append(op)
                 pending = op
             elif tag == "L":
                 f = line.split()
@@ -358,9 +373,20 @@ def parse_events(path):
                     problems.append("R without matching C: %s" % line[:80])
                     continue
                 pending.ret = _kv(f[2:])
-                if "caseerr" in pending.ret:
+                outn = pending.args.get("out")
+                if outn:
+                    if "ok" in pending.ret:
+                        failed_producers.discard(outn)
+                        if pending.op in ("setup_s", "setup_r", "raw_s", "raw_r"):
+                            live_ctx.add(outn)
+                    else:
+                        failed_producers.add(outn)
+                        live_ctx.discard(outn)
+                if pending.op == "drop" and "ok" in pending.ret:
+                    live_ctx.discard(pending.args.get("ctx"))
+                if "caseerr" in pending.ret and pending.blocked is None:
                     cur.problems.append("%s: caseerr %s" % (pending.id, pending.ret["caseerr"]))
-                if None not in pending.b.values():
+                if pending.blocked is None and None not in pending.b.values():
                     want = _afp(pending)
                     got = pending.ret.get("afp")
                     pending.afp_ok = want is None or want == got
